@@ -1,8 +1,81 @@
-(* provisional *)
-From Coq Require Import List ZArith.
+(* C15 - delivery follows the current topology under connect / disconnect / destroy / garbage collection.
+   Statements restated from Sync/TopologyProofs.v; `reachable g` = g results from ANY legal history (no parallel
+   edges) of node creation, emission, connect, disconnect, destroy and reference drops, with collection after every step. *)
+From Coq Require Import List ZArith Bool Arith Relations.
 From SZ Require Import Base.Values.
 From SZ Require Import Sync.Topology.
+From SZ Require Import Sync.TopologyProofs.
 Import ListNotations.
-Example C15_smoke : length (trun [] [ONew TPipe []; ONew TSink [0]; OEmit 0 (VInt 1%Z)]) = 3.
-Proof. vm_compute. reflexivity. Qed.
-Print Assumptions C15_smoke.
+
+Theorem C15_links_consistent : forall g : tgraph, reachable g -> (forall u d : nat, t_alive (tget g u) = true -> t_alive (tget g d) = true -> In d (t_downs (tget g u)) <-> In u (t_ups (tget g d))) /\ (forall n : nat, t_alive (tget g n) = true -> NoDup (t_ups (tget g n)) /\ NoDup (t_downs (tget g n))) /\ (forall n i : nat, t_alive (tget g n) = true -> In i (t_ups (tget g n)) \/ In i (t_downs (tget g n)) -> i < length g) /\ (forall u d : nat, t_alive (tget g d) = true -> In u (t_ups (tget g d)) -> u < d) /\ (forall u d : nat, t_alive (tget g u) = true -> In d (t_downs (tget g u)) -> u < d).
+Proof. exact (@links_consistent). Qed.
+Print Assumptions C15_links_consistent.
+
+Theorem C15_downs_alive : forall g : tgraph, reachable g -> forall u d : nat, t_alive (tget g u) = true -> In d (t_downs (tget g u)) -> t_alive (tget g d) = true.
+Proof. exact (@downs_alive). Qed.
+Print Assumptions C15_downs_alive.
+
+Theorem C15_ups_alive : forall g : tgraph, reachable g -> forall u d : nat, t_alive (tget g d) = true -> In u (t_ups (tget g d)) -> t_alive (tget g u) = true.
+Proof. exact (@ups_alive). Qed.
+Print Assumptions C15_ups_alive.
+
+Theorem C15_temit_frame : forall (f : nat) (g : tgraph) (n : nat) (x : val) (g' : tgraph) (log : list tdeliv), TInv0 g -> alive g n -> temit f g n x = (g', log) -> length g' = length g /\ (forall i : nat, tk (tget g' i) = tk (tget g i) /\ t_ups (tget g' i) = t_ups (tget g i) /\ t_downs (tget g' i) = t_downs (tget g i) /\ t_alive (tget g' i) = t_alive (tget g i) /\ t_held (tget g' i) = t_held (tget g i) /\ t_reg (tget g' i) = t_reg (tget g i)).
+Proof. exact (@temit_frame). Qed.
+Print Assumptions C15_temit_frame.
+
+Theorem C15_emit_along_edges : forall (f : nat) (g : tgraph) (n : nat) (x : val) (g' : tgraph) (log : list tdeliv), TInv0 g -> alive g n -> temit f g n x = (g', log) -> (forall (s d : nat) (v : val), In (s, d, v) log -> t_alive (tget g d) = true /\ In d (t_downs (tget g s))) /\ (f <> 0 -> filter (fun e : nat * nat * val => fst (fst e) =? n) log = map (fun d : nat => (n, d, x)) (t_downs (tget g n))).
+Proof. exact (@emit_along_edges). Qed.
+Print Assumptions C15_emit_along_edges.
+
+Theorem C15_dropped_branch_silent : forall (g : tgraph) (n : nat) (x : val) (g' : tgraph) (r : tres) (log : list tdeliv), reachable g -> wf_op g (OEmit n x) -> tstep g (OEmit n x) = (g', r, log) -> r = ROk /\ (forall (s d : nat) (v : val), In (s, d, v) log -> t_alive (tget g d) = true /\ In d (t_downs (tget g s))) /\ filter (fun e : nat * nat * val => fst (fst e) =? n) log = map (fun d : nat => (n, d, x)) (t_downs (tget g n)).
+Proof. exact (@dropped_branch_silent). Qed.
+Print Assumptions C15_dropped_branch_silent.
+
+Theorem C15_emit_preserves_liveness : forall (g : tgraph) (n : nat) (x : val), reachable g -> wf_op g (OEmit n x) -> forall i : nat, t_alive (tget (step_g g (OEmit n x)) i) = t_alive (tget g i).
+Proof. exact (@emit_preserves_liveness). Qed.
+Print Assumptions C15_emit_preserves_liveness.
+
+Theorem C15_sink_survives_drop : forall (g : tgraph) (o : top) (s : nat), TInv0 g -> wf_op g o -> t_alive (tget g s) = true -> t_reg (tget g s) = true -> t_alive (tget (step_g g o) s) = true /\ (forall u : nat, clos_refl_trans nat (fun a b : nat => In b (t_ups (tget (step_g g o) a))) s u -> t_alive (tget (step_g g o) u) = true).
+Proof. exact (@sink_survives_drop). Qed.
+Print Assumptions C15_sink_survives_drop.
+
+Theorem C15_sink_survives_own_drop : forall (g : tgraph) (s : nat), reachable g -> wf_op g (ODrop s) -> t_reg (tget g s) = true -> t_alive (tget (step_g g (ODrop s)) s) = true.
+Proof. exact (@sink_survives_own_drop). Qed.
+Print Assumptions C15_sink_survives_own_drop.
+
+Theorem C15_collect_dead : forall (g : tgraph) (n : nat), TShape g -> t_held (tget g n) = false -> t_reg (tget g n) = false -> t_downs (tget g n) = [] -> t_alive (tget (collect g) n) = false.
+Proof. exact (@collect_dead). Qed.
+Print Assumptions C15_collect_dead.
+
+Theorem C15_destroyed_and_dropped_dies : forall (g : tgraph) (n : nat), TInv0 g -> wf_op g (ODestroy n) -> t_downs (tget g n) = [] -> wf_op (step_g g (ODestroy n)) (ODrop n) /\ t_alive (tget (step_g (step_g g (ODestroy n)) (ODrop n)) n) = false.
+Proof. exact (@destroyed_and_dropped_dies). Qed.
+Print Assumptions C15_destroyed_and_dropped_dies.
+
+Theorem C15_combine_aligned : forall g : tgraph, reachable g -> forall i : nat, t_alive (tget g i) = true -> tk (tget g i) = TCombine -> length (t_last (tget g i)) = length (t_ups (tget g i)).
+Proof. exact (@combine_aligned). Qed.
+Print Assumptions C15_combine_aligned.
+
+Theorem C15_zip_keys : forall g : tgraph, reachable g -> forall i : nat, t_alive (tget g i) = true -> tk (tget g i) = TZip -> NoDup (map fst (t_bufs (tget g i))) /\ (forall u : nat, In u (map fst (t_bufs (tget g i))) <-> In u (t_ups (tget g i))).
+Proof. exact (@zip_keys). Qed.
+Print Assumptions C15_zip_keys.
+
+Theorem C15_zip_never_wedged : forall g : tgraph, reachable g -> forall i : nat, t_alive (tget g i) = true -> tk (tget g i) = TZip -> zip_ready (tget g i) = false.
+Proof. exact (@zip_never_wedged). Qed.
+Print Assumptions C15_zip_never_wedged.
+
+Theorem C15_zip_never_wedged_step : forall (g : tgraph) (o : top), reachable g -> wf_op g o -> forall i : nat, t_alive (tget (step_g g o) i) = true -> tk (tget (step_g g o) i) = TZip -> zip_ready (tget (step_g g o) i) = false.
+Proof. exact (@zip_never_wedged_step). Qed.
+Print Assumptions C15_zip_never_wedged_step.
+
+Theorem C15_collect_idempotent : forall g : tgraph, TShape g -> collect (collect g) = collect g.
+Proof. exact (@collect_idempotent). Qed.
+Print Assumptions C15_collect_idempotent.
+
+Theorem C15_reachable_collected : forall g : tgraph, reachable g -> collect g = g.
+Proof. exact (@reachable_collected). Qed.
+Print Assumptions C15_reachable_collected.
+
+Theorem C15_disconnect_non_edge_raises : forall (g : tgraph) (u d : nat), reachable g -> wf_op g (ODisconnect u d) -> ~ In d (t_downs (tget g u)) -> tstep g (ODisconnect u d) = (g, RRaise, []).
+Proof. exact (@disconnect_non_edge_raises). Qed.
+Print Assumptions C15_disconnect_non_edge_raises.
+
